@@ -146,6 +146,37 @@ theorem C35_unknown_mode_is_error (v : String)
   · rw [C35_http_mode_vocabulary]; simp [*]
   · rw [(C35_flight_mode_vocabulary v).1 h10, C35_http_mode_vocabulary]; simp [*]
 
+/-! ## bridge: the hand-written vocabulary the driver runs IS the generated one -/
+
+def modeOfGen : IQE.Gen.FrontDoor.DistMode → Mode
+  | .Auto => .auto
+  | .Force => .force
+  | .Off => .off
+
+/-- `Engine.FrontDoor.parseModeHttp` = the translator-generated `parse_value` (server.rs `DistMode::parse`), on every string -/
+theorem C35_bridge_http_vocabulary (v : String) :
+    parseModeHttp v = (match IQE.Gen.FrontDoor.parse_value v with | .ok m => some (modeOfGen m) | .error _ => none) := by
+  rw [C35_http_mode_vocabulary]
+  unfold parseModeHttp
+  by_cases h1 : (v = "1" ∨ v = "true" ∨ v = "yes" ∨ v = "force") <;> by_cases h2 : (v = "0" ∨ v = "false" ∨ v = "no" ∨ v = "local") <;>
+    by_cases h3 : v = "auto" <;> simp [h1, h2, h3, modeOfGen]
+
+/-- `parse_mode`'s value table (Flight), for EVERY string -/
+theorem C35_flight_mode_table (v : String) : IQE.Gen.FrontDoor.parse_mode v =
+    if v = "auto" then .ok .Auto
+    else if v = "1" ∨ v = "true" ∨ v = "yes" ∨ v = "force" then .ok .Force
+    else if v = "0" ∨ v = "false" ∨ v = "no" ∨ v = "local" ∨ v = "off" then .ok .Off else .error "other" := by
+  unfold IQE.Gen.FrontDoor.parse_mode
+  split <;> simp_all
+
+/-- `Engine.FrontDoor.parseModeFlight` = the translator-generated `parse_mode` (flight.rs), on every string -/
+theorem C35_bridge_flight_vocabulary (v : String) :
+    parseModeFlight v = (match IQE.Gen.FrontDoor.parse_mode v with | .ok m => some (modeOfGen m) | .error _ => none) := by
+  rw [C35_flight_mode_table]
+  unfold parseModeFlight
+  by_cases h1 : v = "auto" <;> by_cases h2 : (v = "1" ∨ v = "true" ∨ v = "yes" ∨ v = "force") <;>
+    by_cases h3 : (v = "0" ∨ v = "false" ∨ v = "no" ∨ v = "local" ∨ v = "off") <;> simp [h1, h2, h3, modeOfGen]
+
 /-! ## non-vacuity -/
 example : respond true .auto 3 true .ok .ok = .ok true none ∧ respond true .auto 1 true .ok .ok = .ok false (some .oneMember) ∧
           respond true .auto 3 false .ok .queryError = .ok false (some .planRefused) ∧
